@@ -819,7 +819,12 @@ def apply_op(st, op):
             got = call(lambda: td.copy_(td2))
         if got[0] != "ok":
             return "raise!", got[1]
-        st.pos = pos2.clone()
+        if how == "update":
+            st.pos = pos2.clone()
+        else:
+            # in place: the tensor entry keeps its memory layout (a transposed view stays one), so does the proxy
+            st.pos = pos.clone(memory_format=torch.preserve_format)
+            st.pos.copy_(pos2)
         return "ok", None
     if k in ("setitem", "setitem_same", "set_at", "update"):
         x = call(lambda: td.get("x"))
